@@ -308,9 +308,6 @@ func (s *Sim) deliverSQL(c *call, flt string) {
 	s.finishSQL(c, res, true)
 }
 
-func (s *Sim) connClosed(c *simConn) {
-	// called from arbitrary goroutines: only touch under pmu, real cleanup is lazy
-}
 
 func (s *Sim) deliverZKDial(c *call) {
 	host := srcHostOf(c.src)
